@@ -52,9 +52,10 @@ const p025 = 5000
 
 // Case is the replayable description of one executed case.
 type Case struct {
-	Kind string  `json:"kind"` // honest | flip | forge | qual
-	SK   mon.Hex `json:"sk,omitempty"`
-	Msg  mon.Hex `json:"msg,omitempty"`
+	Kind string    `json:"kind"`           // honest | flip | forge | qual | shared
+	Keys []mon.Hex `json:"keys,omitempty"` // shared: the secret keys of the group (J = index of the judged key, Proof/Extra = its proofs in two histories)
+	SK   mon.Hex   `json:"sk,omitempty"`
+	Msg  mon.Hex   `json:"msg,omitempty"`
 	// flip
 	Target string `json:"target,omitempty"` // proof | short-proof | msg | pk
 	Bit    int    `json:"bit,omitempty"`
@@ -1044,6 +1045,8 @@ func replay(r *mon.Run, path string) {
 		}
 	case "qual":
 		runQual(r, c)
+	case "shared":
+		replayShared(r, c)
 	default:
 		fmt.Println("MACHINERY: unknown case kind in replay:", c.Kind)
 		os.Exit(2)
@@ -1078,6 +1081,10 @@ func cleanup() {
 }
 
 func main() {
+	if args, ok := mon.IsChildInvocation(); ok && len(args) > 0 && args[0] == "shared" {
+		sharedChild(args)
+		return
+	}
 	r := mon.Start("C16")
 	if p := mon.ReplayArg(); p != "" {
 		replay(r, p)
@@ -1085,6 +1092,13 @@ func main() {
 	}
 	boot(p025)
 	workers := runtime.NumCPU()
+
+	// ---- D1. shared-message groups, first history: one goroutine, cold process
+	groups := sharedGroups(r)
+	for g := range groups {
+		sharedFirstPass(r, &groups[g])
+	}
+	phase("D1 shared first pass")
 
 	// ---- A. honest proofs, bit flips, crafted proofs over seeded keys/messages
 	nKeys := r.Pick(2000, 100000)
@@ -1113,6 +1127,10 @@ func main() {
 		p := pairs[n]
 		sk := keys[p.i]
 		m := genMsg(r, p.i, p.j)
+		if p.j == 2 && p.i%4 == 0 {
+			m = append([]byte{}, groups[(p.i/4)%len(groups)].Msg...)
+			r.Count("single_key_pairs_on_shared_messages", 1)
+		}
 		hc := Case{Kind: "honest", SK: sk, Msg: m}
 		pi := runHonest(r, hc)
 		r.Distinct("honest", sk, m)
@@ -1206,6 +1224,14 @@ func main() {
 		r.Note("observation (not judged): consensus.ConsensusHelperImpl.VRFProve2Value(header prove value) differed from VRFProof2Hash of the carried proof for %d of %d honest proofs that start with a zero byte (no left padding before taking the first 32 bytes)",
 			n, n+r.Get("observed_helper_VRFProve2Value_equals_output"))
 	}
+	// ---- D2/D3. shared-message groups again: after phases A and B touched tens of thousands of
+	// other messages (opposite key order), and in a fresh child process
+	for g := range groups {
+		sharedLaterPass(r, &groups[g], "later in the same process, keys in the opposite order")
+	}
+	phase("D2 shared later pass")
+	sharedRunChild(r, groups)
+	phase("D3 shared child")
 	// ---- C. qualification rule
 	stakes := []uint64{0, 1, 2, 3, 14, 15, 19, 20, 24, 25, 26, 100, 2000, 40000, 1000000, 1 << 53, 1<<53 + 1, 1 << 63}
 	if r.Thorough() {
@@ -1276,23 +1302,26 @@ func main() {
 
 	mutants := r.Get("mutants_accepted") + r.Get("mutants_rejected")
 	crafted := int64(r.DistinctCount("crafted"))
-	evals := r.Get("honest_verifies") + r.Get("transport_verifies") + mutants + crafted + r.Get("qual_checks") + r.Get("qual_checks_zero_stake")
+	evals := r.Get("honest_verifies") + r.Get("transport_verifies") + mutants + crafted + r.Get("qual_checks") + r.Get("qual_checks_zero_stake") +
+		r.Get("shared_verifies") + r.Get("shared_cross_key_verifies") + r.Get("shared_history_compares")
 	must := []string{"honest_verifies", "transport_verifies_shortened", "transport_qualification_checks", "mutants_rejected",
 		"mutant_verifies_proof", "mutant_verifies_pk", "mutant_verifies_msg", "mutant_verifies_short-proof",
 		"small_order_proofs_cT_is_O", "crafted_verifies_small-order", "crafted_verifies_s-plus-q", "crafted_verifies_overlong",
 		"qual_checks", "qual_qualified", "qual_not_qualified", "determinism_checks",
-		"transport_lead_zero_bytes=1", "transport_lead_zero_bytes=2"}
+		"transport_lead_zero_bytes=1", "transport_lead_zero_bytes=2",
+		"shared_groups", "shared_reprove_checks", "shared_history_compares", "shared_cross_key_rejected", "shared_child_groups", "single_key_pairs_on_shared_messages"}
 	if r.Thorough() {
 		must = append(must, "transport_lead_zero_bytes=3")
 	}
 	r.Finish(mon.Coverage{
 		Evaluations:        evals,
-		DistinctNontrivial: r.Get("distinct_mutants") + crafted + int64(r.DistinctCount("qual")) + int64(r.DistinctCount("honest_zero_lead")),
+		DistinctNontrivial: r.Get("distinct_mutants") + crafted + int64(r.DistinctCount("qual")) + int64(r.DistinctCount("honest_zero_lead")) + int64(r.DistinctCount("shared")),
 		Rule: "seeded ed25519 VRF keys x 3 messages (lengths 0..300, mostly 32): prove twice, verify, big.Int transport + verify + validateProve equality; " +
 			"single-bit mutants of proof/pk/message (full sets on a stride of pairs, seeded samples elsewhere); whole 65536-candidate blocks searched (H5: hash-to-curve + x*H) for proofs whose encoding starts with 1,2(,3) zero bytes, these also mutated in their shortened form; " +
 			"crafted proofs by the harness as prover knowing the key: (Gamma+E,c,s) for the 7 non-trivial small-order E with the nonce ground until c mod ord(E) equals the guess (0 and non-0), s+q, over-long, zero-prefixed, truncated; " +
 			"validateProve on synthetic proofs whose first 32 bytes sit at, +-1, -2, +-2^k around floor(j*min(stakeRatio,1)/MaxQN*(2^256-1)), j=1..MaxQN, plus 0,1,2^256-2,2^256-1 and seeded random values, for totalStake in the design list x workingMiners x heights around Proposal025+rewardBlocks, each called twice. " +
-			"Non-trivial: mutants, crafted proofs, zero-leading honest proofs and qualification probes (distinct by content); ordinary honest proofs are the control",
+			"shared-message groups: 4-16 key pairs prove/verify one message interleaved in one goroutine at process start (key 0 before anyone else touched it, re-proved after other keys' turns, cross-key verification must fail), again in the opposite key order after the rest of the run, and in a fresh child process; proofs must be byte-identical across the three histories and verify in each; a quarter of the third messages of the single-key workload reuse these shared messages. " +
+			"Non-trivial: mutants, crafted proofs, zero-leading honest proofs, qualification probes and (key, shared message) pairs (distinct by content); ordinary honest proofs are the control",
 		Assumptions: []string{
 			"oracle arithmetic (math/big Int/Rat) is exact",
 			"stakeRatio is recomputed as difficulty*clamp(totalStake*PotentialProposalIndex/100, PotentialProposal, PotentialProposalMax)/totalStake from model.Param; configurations whose operands the node cannot represent (uint64 wrap, difficulty*potential >= 2^63, totalStake not a float64 integer) are judged against the node's own calcStakeRatio (qn range and determinism only)",
